@@ -460,9 +460,9 @@ def check_property(prop, tier, only, keep, jobs):
             group = [o for o in kani_obs + canaries if o["crate"] in c]
             log("[%s] kani: crates %s, %d harnesses" % (prop, ",".join(c), len(group)))
             try:
-                plain = [o for o in group if not o.get("unwindset") and not o.get("rss_gb")]
-                hungry = [o for o in group if not o.get("unwindset") and o.get("rss_gb")]
-                special = [o for o in group if o.get("unwindset")]
+                plain = [o for o in group if not o.get("unwindset") and not o.get("cbmc_args") and not o.get("rss_gb")]
+                hungry = [o for o in group if not o.get("unwindset") and not o.get("cbmc_args") and o.get("rss_gb")]
+                special = [o for o in group if o.get("unwindset") or o.get("cbmc_args")]
                 data, stdout = None, ""
 
                 def merge(d2):
@@ -491,7 +491,12 @@ def check_property(prop, tier, only, keep, jobs):
                     # two-phase: generate the goto binaries (5 s per harness), look the loop ids up, run with --unwindset
                     run_kani(scratch, c, special, jobs, prebuild=True)
                     us = discover_unwindset(scratch, special)
-                    d2, s2, _ = run_kani(scratch, c, special, jobs, cbmc_args=(["--unwindset", us] if us else None))
+                    extra = []  # registry `cbmc_args` of the special rows (shared by the invocation, like the unwindset)
+                    for o in special:
+                        ca = list(o.get("cbmc_args") or [])
+                        if ca and not any(extra[i:i + len(ca)] == ca for i in range(len(extra))):
+                            extra += ca
+                    d2, s2, _ = run_kani(scratch, c, special, jobs, cbmc_args=((["--unwindset", us] if us else []) + extra) or None)
                     stdout += s2
                     if d2 is not None:
                         merge(d2)
@@ -629,7 +634,7 @@ def check_property(prop, tier, only, keep, jobs):
             noinput = True
             if o["backend"] == "kani":
                 try:
-                    _, pout, _ = run_kani(scratch, o["crate"], [o], 1, playback=True)
+                    _, pout, _ = run_kani(scratch, o["crate"], [o], 1, playback=True, cbmc_args=(o.get("cbmc_args") or None))
                     k_ = pout.find("Checking harness")
                     rp["verifier_output"] += "\n--- cargo kani (concrete playback run) ---\n" + (pout[k_:] if k_ >= 0 else pout)[-5000:]
                     tests = extract_playback_tests(pout)
